@@ -346,7 +346,7 @@ pub fn scenarios(prop: &'static str, tier: Tier) -> Vec<ScenarioDef> {
                         let rung = format!("P{p}-E{sends}-S{streams}-N{polls}");
                         let spec = Spec { prop, kind, eps: eps.clone(), b, m, streams, producers: p, sends, polls, hold, len_queries: 0 };
                         let threads = p + streams;
-                        let bound = match tier { Tier::Quick => if threads <= 2 { 2 } else { 1 }, Tier::Thorough => if threads <= 2 { 3 } else { 2 } };
+                        let bound = match tier { Tier::Quick => if threads <= 2 { 3 } else { 2 }, Tier::Thorough => if threads <= 2 { 4 } else if threads == 3 { 3 } else { 2 } };
                         defs.push(ScenarioDef { prop, family, rung, rung_idx, max_bound: bound,
                             make: Arc::new(move || { let sp = spec.clone(); crate::dispatch_uni!(sp.kind, sp.b, sp.m, make(sp)) }) });
                         rung_idx += 1;
@@ -382,7 +382,7 @@ pub fn scenarios(prop: &'static str, tier: Tier) -> Vec<ScenarioDef> {
                     if n == 4 && tier == Tier::Quick { continue }
                     let spec = RawSpec { ring, n, scripts: sc.clone() };
                     let threads = sc.len();
-                    let bound = match tier { Tier::Quick => if threads <= 2 { 2 } else { 1 }, Tier::Thorough => if threads <= 2 { 4 } else { 3 } };
+                    let bound = match tier { Tier::Quick => if threads <= 2 { 3 } else { 2 }, Tier::Thorough => if threads <= 2 { 5 } else { 3 } };
                     defs.push(ScenarioDef { prop, family: format!("raw-{}/N{n}", ring.name()), rung: name.to_string(), rung_idx, max_bound: bound,
                         make: Arc::new(move || make_raw_dispatch(spec.clone())) });
                     rung_idx += 1;
